@@ -5685,3 +5685,13 @@ impl core::fmt::Display for EnumItem {
         f.write_str(EnumItem::STRING_TABLE[*self as usize])
     }
 }
+
+#[cfg(feature = "verif")]
+impl EnumItem {
+    /// verification hook: the complete table of item texts; the index of a text is the value of its item
+    #[doc(hidden)]
+    #[must_use]
+    pub fn verif_string_table() -> &'static [&'static str] {
+        &Self::STRING_TABLE
+    }
+}
